@@ -58,14 +58,14 @@ const (
 type MapEntry struct{ K, V Value }
 
 type Obj struct {
-	Kind int
-	Val  Value   // kCell
-	B    *Bytes  // kBytes: backing bytes; kBuffer: all bytes ever written
-	R    *Term   // kBuffer: read offset
-	E    []Value // kElems
-	M    []MapEntry
-	ET   types.Type // element type (kElems/kBytes), may be nil
-	Epoch int       // kBuffer: number of modifications so far (views taken earlier are stale)
+	Kind  int
+	Val   Value   // kCell
+	B     *Bytes  // kBytes: backing bytes; kBuffer: all bytes ever written
+	R     *Term   // kBuffer: read offset
+	E     []Value // kElems
+	M     []MapEntry
+	ET    types.Type // element type (kElems/kBytes), may be nil
+	Epoch int        // kBuffer: number of modifications so far (views taken earlier are stale)
 }
 
 type Frame struct {
@@ -105,6 +105,7 @@ type Access struct {
 	Lock  int // lock mode held at that moment on any mutex: 0 none, >0 readers, -1 writer
 	Site  string
 }
+
 // TraceEv: ordered visible events (mutex operations, accesses to pre-existing maps) of a path.
 type TraceEv struct {
 	Kind string // Lock RLock Unlock RUnlock lookup update delete replace
@@ -188,33 +189,34 @@ func (s *State) newObj(o *Obj) int {
 }
 
 type Engine struct {
-	prog     *ssa.Program
-	solver   *Solver
-	globals  map[*ssa.Global]int
-	fresh    int
-	Paths    int
-	Merges   int
-	Forks    int
-	Steps    int
-	merge    bool
-	unroll   int
-	cutFn    *ssa.Function
-	cutHdr   *ssa.BasicBlock
-	cutInit  func(s *State, f *Frame)
-	trace    bool
-	baseMax  int // objects with id <= baseMax existed after package initialisation (global-reachable)
-	watchBuf int // buffer object whose unread size is recorded at each allocation
-	funcs    map[string]int
-	noFeas   bool
-	lazyGlob *State
-	mergePkg map[string]bool
-	lazyObjs []lazyObj
-	maxPaths int
-	crcExact int
-	noSlice  bool
-	deadline time.Time
-	havocLookup map[int]bool // map objects whose lookups answer nondeterministically (C19 layer 3)
-	lazy     int // >0: inside a merged sub-exploration: byte-local branch conditions fork without a feasibility query
+	prog         *ssa.Program
+	solver       *Solver
+	globals      map[*ssa.Global]int
+	fresh        int
+	Paths        int
+	Merges       int
+	Forks        int
+	Steps        int
+	merge        bool
+	unroll       int
+	cutFn        *ssa.Function
+	cutHdr       *ssa.BasicBlock
+	cutInit      func(s *State, f *Frame)
+	trace        bool
+	baseMax      int // objects with id <= baseMax existed after package initialisation (global-reachable)
+	watchBuf     int // buffer object whose unread size is recorded at each allocation
+	funcs        map[string]int
+	noFeas       bool
+	lazyGlob     *State
+	mergePkg     map[string]bool
+	lazyObjs     []lazyObj
+	maxPaths     int
+	crcExact     int
+	noSlice      bool
+	deadline     time.Time
+	symLoopLimit int          // >0: a loop whose condition is symbolic and not byte-local is cut after this many iterations (message-level items fall back to concrete text lengths)
+	havocLookup  map[int]bool // map objects whose lookups answer nondeterministically (C19 layer 3)
+	lazy         int          // >0: inside a merged sub-exploration: byte-local branch conditions fork without a feasibility query
 }
 
 func (e *Engine) freshName(prefix string) string {
@@ -1104,6 +1106,10 @@ func (e *Engine) step(s *State) []*State {
 		}
 		if c == False {
 			goF(s, f)
+			return nil
+		}
+		if e.symLoopLimit > 0 && !isByteCond(c) && f.visits[f.blk.Index] >= e.symLoopLimit {
+			s.cut = "symbolic-trip-count loop at " + e.site(x.Pos())
 			return nil
 		}
 		tf, ff := true, true
